@@ -55,6 +55,12 @@ def c09(prop, tier):
                                  [('Write', 'd2'), ('RemoteWrite', 'd1'), ('RemoteWrite', 'd2'), ('Replicate', 'd1'), ('Replicate', 'd2'), ('Reload', 'd2'), ('Write', 'd2')]]):
             steps = [{'action': 'Init', 'args': [], 'state': {}}] + [{'action': a, 'args': [d], 'state': {}} for a, d in seq]
             bs.append({'id': 'accepted-elsewhere-%d-%d' % (n, k), 'steps': steps, 'dbs': names})
+    # the fourth database is the manifest of the first opened under another path (one root, two databases): writes of
+    # each, then each loaded again
+    for k, seq in enumerate([[('Write', 'd1'), ('Write', 'd4'), ('Reload', 'd1'), ('Write', 'd1'), ('Reload', 'd4'), ('Write', 'd4')],
+                             [('RemoteWrite', 'd4'), ('Replicate', 'd4'), ('Write', 'd1'), ('Reload', 'd1'), ('RemoteWrite', 'd1'), ('Replicate', 'd1'), ('Reload', 'd4')]]):
+        steps = [{'action': 'Init', 'args': [], 'state': {}}] + [{'action': a, 'args': [d], 'state': {}} for a, d in seq]
+        bs.append({'id': 'one-root-two-paths-%d' % k, 'steps': steps, 'dbs': ['d1', 'd2', 'd3', 'd4']})
     for b in bs:
         if len({s['args'][0] for s in b['steps'] if s['args']}) >= 2:
             ck.distinct.add(vlib.beh_signature(b))
